@@ -1739,7 +1739,12 @@ func errActedUpon(v ssa.Value) (bool, string) {
 				}
 			case *ssa.Return, *ssa.Send:
 				return true, ""
-			case *ssa.Call, *ssa.Defer, *ssa.Go:
+			case *ssa.Call:
+				if isLogSink(u) {
+					continue // written to the log: nobody who could roll back learns of it
+				}
+				return true, ""
+			case *ssa.Defer, *ssa.Go:
 				return true, ""
 			case *ssa.MakeInterface, *ssa.ChangeInterface, *ssa.ChangeType, *ssa.Phi, *ssa.Extract, *ssa.TypeAssert:
 				if ok, _ := handled(u.(ssa.Value), depth+1); ok {
@@ -2162,6 +2167,18 @@ func txRunnerCall(w *load.World, call *ssa.Call) (isWrite, ok bool) {
 // x is not nil the function does not simply carry on to a return that reports
 // success (every error result the constant nil) without having used x, or an
 // error wrapped around it, in any consequential way.
+// isLogSink: a call that only writes its argument to the log (zerolog's event builders, the
+// standard log package). An error handed to nothing else reaches nobody who could roll back.
+func isLogSink(call *ssa.Call) bool {
+	n := ""
+	if g := call.Call.StaticCallee(); g != nil {
+		n = g.String()
+	} else if call.Call.Method != nil {
+		n = call.Call.Method.FullName()
+	}
+	return strings.Contains(n, "rs/zerolog") || strings.HasPrefix(n, "log.") || strings.HasPrefix(n, "(*log.Logger)")
+}
+
 func nilTestActs(x ssa.Value, test *ssa.BinOp) bool {
 	f := test.Parent()
 	var ifs []*ssa.If
@@ -2226,6 +2243,9 @@ func nilTestActs(x ssa.Value, test *ssa.BinOp) bool {
 					if n == "fmt.Errorf" || strings.HasPrefix(n, "errors.") {
 						continue // wrapping alone is not acting
 					}
+				}
+				if isLogSink(y) {
+					continue // logging alone is not acting
 				}
 				return true
 			case *ssa.Store:
